@@ -29,6 +29,17 @@ def main(argv):
             return chk.finish()
         mod = importlib.import_module(".rules." + pid.lower(), __package__)
         mod.run(ctx, chk)
+        # the facts come from a build with debug assertions on; when compiling them out changes the
+        # MIR of anything analysed, the property is decided for that build as well
+        diff = ctx.profile_dependent()
+        if diff:
+            chk.note("MIR differs without debug assertions for %s: rule evaluated on both builds" % (diff,))
+            chk.tag = "[build without debug assertions] "
+            mod.run(Ctx(tier, profile="nd"), chk)
+            chk.tag = ""
+        else:
+            chk.note("MIR of every analysed crate is byte-identical with and without debug assertions")
+        chk.cov["profiles"] = ["debug-assertions on"] + (["debug-assertions off"] if diff else ["debug-assertions off (identical MIR)"])
     except Unanalysable as u:
         chk.violation("%s/unanalysable/%s" % (pid, u.what[:120]), "reason=unanalysable: %s" % u.what,
                       {"where": u.where, "trace": traceback.format_exc()[-1500:]})
